@@ -291,6 +291,31 @@ class StoreSys:
 bfs.register('candle-store', StoreSys)
 
 
+def _store_session(args):
+    """whole backtests (warm-up injection, trading + data routes on the same pair, both simulators): every stored series must
+    have strictly increasing timestamps, the 1m series without gaps"""
+    from . import c07
+    from .. import session as S
+    tf, dtfs, two, length, fill_at, fast, warm, emb = args
+    case = c07.build(tf, dtfs, two, length, fill_at, fast, warm, emb)
+    r = S.run_session(case)
+    ident = {'store_session': True, 'tf': tf, 'data_tfs': list(dtfs), 'two_symbols': two, 'length': length, 'fill_at': fill_at, 'fast': fast, 'warmup_windows': warm, 'embedding': list(emb)}
+    if r['error']:
+        return [Violation('session-raises', {'exc': r['error'][0]}, ident, '%s: %s' % r['error'][:2]).to_json()]
+    out = []
+    for key, rows in (r['end'].get('stored_candles') or {}).items():
+        if isinstance(rows, str):
+            continue
+        ts = [int(x[0]) for x in rows]
+        if any(b <= a for a, b in zip(ts, ts[1:])):
+            i = next(i for i, (a, b) in enumerate(zip(ts, ts[1:])) if b <= a)
+            out.append(Violation('session-store-not-increasing', {'tf_is_1m': key.endswith('|1m'), 'warmup': bool(warm)}, ident,
+                                 '%s: %d rows, timestamp goes from minute %d back to %d at row %d' % (key, len(ts), (ts[i] - TS) // 60000, (ts[i + 1] - TS) // 60000, i + 1)).to_json())
+        elif key.endswith('|1m') and any(b - a != 60000 for a, b in zip(ts, ts[1:])):
+            out.append(Violation('session-store-gap', {'warmup': bool(warm)}, ident, '%s: 1m series has a gap' % key).to_json())
+    return out
+
+
 def run(ctx):
     cov = ctx.coverage
     nmax = 8 if ctx.quick else 11
@@ -315,6 +340,17 @@ def run(ctx):
         if verdict != want:
             ctx.add(Violation('spacing-validation', {'gap_s': gap, 'impl': verdict}, {'spacing_gap_s': gap},
                               'research.backtest with first candles %d s apart: %s (expected %s)' % (gap, verdict, want)))
+    sjobs = []
+    for tf, dtfs in (('5m', ('15m',)), ('1m', ('3m',)), ('3m', ('15m',)), ('15m', ('5m',)), ('5m', ('1m',)), ('3m', ())):
+        for fast in (False, True):
+            for warm in (0, 1, 2):
+                for two in (False, True):
+                    sjobs.append((tf, dtfs, two, 2 * 15 + 1, 17, fast, warm, ctx.embedding))
+    for vs in core.pmap(_store_session, sjobs, chunksize=2):
+        ctx.extend(Violation.from_json(v) for v in vs)
+    ctx.count('store-sessions', len(sjobs))
+    cov['transitions'] += len(sjobs)
+    cov['traces_validated_against_impl'] += len(sjobs)
     depth = 6 if ctx.quick else 8
     cfgs = [({'tf': '5m', 'bucket': 3, 'batch': True, 'gaps': False}, depth),
             ({'tf': '5m', 'bucket': 4, 'batch': False, 'gaps': True}, depth),
@@ -333,6 +369,9 @@ def run(ctx):
 
 
 def replay(case, ctx):
+    if case.get('store_session'):
+        emb = tuple(case.get('embedding') or ctx.embedding)
+        return [Violation.from_json(v) for v in _store_session((case['tf'], tuple(case['data_tfs']), case['two_symbols'], case['length'], case['fill_at'], case['fast'], case['warmup_windows'], emb))]
     if 'present' in case:
         n = case['n']
         mask = sum(1 << i for i in case['present'])
